@@ -72,7 +72,8 @@ P = {
    note=SAN + "the .tzmap payloads are not shipped; sources are generated. " + TB, ref="3 C19"),
  "C08": dict(cat="exploration", tech="reference-model monitor (ordinal/seconds order) over dutdrv comparisons, dtest exit codes and dsort outputs (permutation + monotonicity)",
    text="dt_dtcmp/dt_dt_in_range_p through dtest's code path for 11 kinds (ymd, ywd, yd, ymcw, bizda, ldn, time, three "
-        "date-time spellings, epoch) on neighbourhood and random pairs, antisymmetry, dtest for all 9 operators, dsort "
+        "date-time spellings, epoch) on neighbourhood and random pairs, antisymmetry, dtest for all 9 operators, dgrep with the "
+        "operator as an option, dsort "
         "[-r] on 120 generated files: permutation of the input multiset and monotone keys.",
    note=SAN + "mixed kinds are out of scope; sort(1) runs under LC_ALL=C. " + TB, ref="3 C08"),
  "C14": dict(cat="exploration", tech="reference-model monitor (lib/leap-seconds.list) over dconv --zone/--from-zone TAI|GPS, ddiff %rS, dadd +Nrs",
